@@ -4,7 +4,8 @@
 // compared operation by operation with the Lean model `Aergo.Lib`; the property's own predicates
 // (oracle.go) are evaluated on what the real code reports.
 //
-//	part A  scripted histories (the two known-finding classes; regression histories of the three repaired ones)
+//	part A  scripted histories (the three known-finding classes — A1 restart veto gap, A4 stale entry, A6 two correct
+//	        nodes with conflicting LIBs although no producer misbehaves —; regression histories of the three repaired ones)
 //	part B  random multi-node schedules: producer slots, missed slots, partitions, delays, restarts, at most
 //	        one equivocating producer (f < n/3); node 0 runs on the real chain.ChainDB and is recorded
 //	part C  arbitrary single-node streams (lying Confirms, outsiders, producer-count changes, injected gc):
@@ -71,6 +72,7 @@ func main() {
 
 	partA(e)
 	partAWitnesses(e)
+	partA6(e)
 	partB(e)
 	partC(e)
 	partD(e)
@@ -162,6 +164,57 @@ func partA(e *env) {
 		run.Count(fmt.Sprintf("A2 lib-after=%d", nd.dump().Lib.No))
 		nd.leave()
 	}
+}
+
+// A6 (class C08-conflicting-libs-honest-switch-below-confirmed; Lean: Props.C08.agreement_false_honest_witness): two correct
+// nodes end up with irreversible blocks on conflicting branches although NO producer misbehaves: four honest producers,
+// honest Confirms (no - lpbNo), no restart, no stale entry. After two connected rounds (b1..b8) p3 is cut off and builds
+// alone (5 blocks on b8); p0, p1, p2 build b9..b12 and p1 alone adds b13: p1's node reports LIB b9. p0 and p2 did not see
+// b13: their LIB is b8; they miss their slots meanwhile, then receive p3's longer branch: root b8 = their LIB, so
+// NeedReorganization and VerifyTimestamp let it through. p0, p2, p3 then make the blocks of that branch irreversible.
+func partA6(e *env) {
+	run := e.run
+	w := e.world(run.Rng.Fork(), seqN(4))
+	rec := &recorder{run: run}
+	s := newSim(w, 4, -1, rec, func(i int) chainStore {
+		if i == 0 {
+			return e.realStore(w)
+		}
+		return lightFor(w)(i)
+	})
+	prod := func(p int) *sblk {
+		b := s.produce(s.nodeAt(p))
+		s.logf("p%d produces %s on %s (confirms %d)", p, b.name, b.prev.name, b.confirms)
+		return b
+	}
+	part := func(g ...int) {
+		s.groups = g
+		s.logf("partition %v", g)
+	}
+	for t := 0; t < 8; t++ { // two connected rounds
+		prod(t % 4)
+		s.sync()
+	}
+	part(0, 0, 0, 1) // p3 is cut off
+	for _, p := range []int{0, 1, 2, 0} {
+		prod(p)
+		s.sync()
+	}
+	part(0, 1, 2, 3) // everybody alone: p1 adds one block on b12; p3 builds five; p0 and p2 miss their slots
+	prod(1)
+	for i := 0; i < 5; i++ {
+		prod(3)
+	}
+	part(0, 1, 0, 0) // p0, p2, p3 reconnect; p1 stays cut off
+	s.sync()
+	for _, p := range []int{0, 2, 3, 0, 2, 3} {
+		prod(p)
+		s.sync()
+	}
+	agreementWith(w, s.nodes, s.replay, classHonestSwitch)
+	n0, n1 := s.nodes[0], s.nodes[1]
+	run.Count(fmt.Sprintf("A6 p0-lib=%s(%d) p1-lib=%s(%d) conflict=%v", nameOf(n0.maxLib.b), n0.maxLib.no, nameOf(n1.maxLib.b), n1.maxLib.no,
+		n0.maxLib.b != nil && n1.maxLib.b != nil && !n0.maxLib.b.isAncestorOf(n1.maxLib.b) && !n1.maxLib.b.isAncestorOf(n0.maxLib.b)))
 }
 
 // scriptedHistory: the concrete histories of lean/Aergo/Props/C08.lean (the `*_false` witnesses), on the real code.
